@@ -15,7 +15,7 @@ var c16Pkgs = map[string]bool{pResolved: true, pValidate: true, pSchema: true}
 
 func init() {
 	register(&propCheck{
-		ID:          "C16",
+		ID: "C16",
 		Explanation: "Termination and crash-freedom of schema resolution and validation, as structural rules over packages resolved, validate and schema: R16.1 every recursive component of the call " +
 			"graph is classified — structural (every cycle passes a strict part of a parameter to the next call), or by-name (a reference is followed through a schema map), which needs a visited set " +
 			"tested and marked before the recursive call, or a tabled acyclicity argument backed by R16.2; R16.2 Resolve rejects cyclic common types (error returned) before any call that inlines type " +
@@ -23,7 +23,7 @@ func init() {
 			"asserted kind confirmed or every other implementer of the sealed interface excluded, or its callers establish the kind (kind predicates, constant tables); R16.6 every loop is a range, " +
 			"a counter loop, a queue drain with bounded pushes or a monotone fixpoint. Explicit panics and wire-struct nil dereferences in these packages are decided under C10. Not decided: index " +
 			"bounds inside the validator, stack depth of structural recursion over deep policy ASTs (C10 F6).",
-		Run:         runC16,
+		Run: runC16,
 	})
 }
 
